@@ -409,7 +409,8 @@ func tryAPIDamage(c *DmgAPICase, st *Stats, m *Model, opts klevdb.Options, files
 	for ci, cl := range calls {
 		a0 := allocBytes()
 		got := cl.run(l)
-		if da := allocBytes() - a0; da > 128<<20 {
+		// "out of proportion to the file": four times the reader's documented 64 MiB sanity bound, per call
+		if da := allocBytes() - a0; da > 256<<20 {
 			cfail("alloc", "%v allocated %d MiB", cl, da>>20)
 		}
 		st.Inc("calls")
